@@ -49,6 +49,13 @@ def Mon.step (m : Mon) (call : Call) (idle : Nat → Bool) (nf : List Task)
              pending := m1.pending.filter fun p => ¬ idle p.1,
              waits := m1.waits.filter fun p => ¬ idle p.1 }, dupMsgs ++ waitMsgs)
 
+/-- the callback looked at its batch again when it ended (`firsts` = first tasks of the batches that showed other
+tasks than when the callback began): a batch handed to the callback is the callback's — no later `Add` may write
+into it (Props: `returned_batch_not_aliased`) -/
+def Mon.mutated (firsts : List Task) : List String :=
+  firsts.map fun x =>
+    s!"the batch starting with task {x} was changed while its callback was running (a later Add wrote into the slice that RemoveAll had handed out): its tasks are not passed to the callback exactly once, tasks of a later batch are seen twice"
+
 /-- end of a section: every added task has been executed exactly once -/
 def Mon.final (m : Mon) (all : List Task) : List String :=
   (m.issued.filter fun x => all.count x ≠ 1).map fun x =>
